@@ -362,15 +362,14 @@ def _fk_roundtrip(case, ctx):
         low = min(h, float(ws.T_rel[2, 3])) < 0.5 * model.lmin * (1 + 1e-6)     # where the (fixed) height clamp bit
         tag = "[raphson-gave-up ratio=%.6f rot=%.6f flat=%d] " % (
             model.spec["rt"] / model.spec["rb"], float(np.linalg.norm(u[3:])), int(low))
-    # signature of "FK returned ANOTHER root of the leg-length equations" (a different assembly mode): the pose is off
-    # but it reproduces the requested lengths (oracle distances at the pose the platform now holds) far inside the pose
-    # tolerance.  No solver-tolerance or bookkeeping error looks like that.
-    elif max(e_ret, e_top, e_state) > tol and e_len <= 0.3 * tol:
-        d_root = float(np.abs(sps.oracle_leg_lengths(model, Tb_now, Tt_now) - L).max())
-        if (d_root <= 0.3 * tol and _pose_err(model, top_ret, Tt_now) <= 0.3 * tol
-                and np.abs(Tb_now - T_bot).max() <= 1e-9 * max(1.0, big)):
-            tag = "[other-fk-root ratio=%.6f rot=%.6f dlen=%.2e] " % (
-                model.spec["rt"] / model.spec["rb"], float(np.linalg.norm(u[3:])), d_root)
+    # signature of "FK returned ANOTHER root of the leg-length equations" (a different assembly mode): the returned pose
+    # is off, yet over the requested base it reproduces the requested lengths (oracle distances) far inside the pose
+    # tolerance.  No solver-tolerance, frame or bookkeeping error looks like that.
+    elif e_ret > tol:
+        d_root = float(np.abs(sps.oracle_leg_lengths(model, T_bot, top_ret) - L).max())
+        if d_root <= 0.3 * tol:
+            tag = "[other-fk-root mode=%d ratio=%.6f rot=%.6f dlen=%.2e] " % (
+                mode, model.spec["rt"] / model.spec["rb"], float(np.linalg.norm(u[3:])), d_root)
     msg = "%sFK(mode %d, h=%.4g, tol=%.3g)" % (tag, mode, h, tol)
     if e_ret > tol:
         raise Violation("%s: returned pose is %.3g from the goal pose (largest displacement of a top-plate point)"
@@ -384,10 +383,10 @@ def _fk_roundtrip(case, ctx):
 
 
 _TAG = re.compile(r"\[raphson-gave-up ratio=([0-9.]+) rot=([0-9.]+) flat=(\d)\]")
-_TAG2 = re.compile(r"\[other-fk-root ratio=([0-9.]+) rot=([0-9.]+) dlen=([0-9.e+-]+)\]")
+_TAG2 = re.compile(r"\[other-fk-root mode=(\d) ratio=([0-9.]+) rot=([0-9.]+) dlen=([0-9.e+-]+)\]")
 
 
-def raphson_region(case, message):
+def fk_regions(case, message):
     """Proposed open known finding C09-raphson-inexact-jacobian: SPFKinSpaceR's orientation columns are Euler-angle
     partials although the unknowns are a rotation vector; the iteration is then not locally convergent for a small top
     plate under a large tilt, runs out of iterations and FK silently returns the neutral pose.  Region: the solver gave
@@ -404,14 +403,21 @@ def raphson_region(case, message):
         return None
     m = _TAG2.search(message)
     if m:
-        # proposed open known finding C09-fk-other-assembly-mode: with a small top plate the orientation is weakly
-        # determined by the legs; under a large tilt a second exact solution of the leg-length equations lies close by
-        # (two roots 0.015 apart at the box corner of the ratio-0.3 geometry) or is reached by fsolve, and the local
-        # solvers started from neutral return that one.  Region: the returned pose is an exact root (signature above)
-        # AND ratio <= 0.40 AND |rotation vector| >= 0.25.
-        rot = float(m.group(2))
-        if rot <= umax and ratio <= 0.40 and rot >= 0.25:
-            return "fk_other_root_small_top_large_tilt"
+        mode, rot = int(m.group(1)), float(m.group(3))
+        if mode != int(case["fk_mode"]) or rot > umax:
+            return None
+        # proposed open known finding C09-fsolve-other-assembly-mode: fk_mode=0 hands the six length equations to
+        # scipy's fsolve in global rotation-vector coordinates; the equations have many roots and now and then it
+        # converges to another one (mirror image below the base, twisted or flipped top plate), which the
+        # library's post-checks do not always reject.  Region: fk_mode 0 AND the returned pose is an exact root.
+        if mode == 0:
+            return "fsolve_other_root"
+        # proposed open known finding C09-raphson-other-assembly-mode: with a small top plate the orientation is weakly
+        # determined by the legs; at the box corner of the ratio-0.3 geometries a second exact solution lies 0.015 from
+        # the goal and Newton from neutral lands on it.  Region: fk_mode 1 AND exact root AND ratio <= 0.40 AND
+        # |rotation vector| >= 0.25.
+        if ratio <= 0.40 and rot >= 0.25:
+            return "raphson_other_root_small_top_large_tilt"
     return None
 
 
@@ -490,7 +496,7 @@ def _fk_cases(kind):
 CLAUSES = [
     Clause("ik_exact_geometry", c_ik_exact, _ik_cases(), 300, 8000),
     Clause("ik_rigid_motion_invariance", c_ik_invariance, _inv_cases(), 200, 6000),
-    Clause("fk_inverts_ik", _fk_roundtrip, _fk_cases("fresh"), 400, 12000, region=raphson_region),
-    Clause("fk_inverts_ik_moved", _fk_roundtrip, _fk_cases("moved"), 400, 12000, region=raphson_region),
-    Clause("fk_inverts_ik_spun", _fk_roundtrip, _fk_cases("spun"), 400, 12000, region=raphson_region),
+    Clause("fk_inverts_ik", _fk_roundtrip, _fk_cases("fresh"), 400, 12000, region=fk_regions),
+    Clause("fk_inverts_ik_moved", _fk_roundtrip, _fk_cases("moved"), 400, 12000, region=fk_regions),
+    Clause("fk_inverts_ik_spun", _fk_roundtrip, _fk_cases("spun"), 400, 12000, region=fk_regions),
 ]
